@@ -15,6 +15,7 @@ type State struct {
 	ghost map[string]Term
 	ret   []Term
 	site  string
+	ndefer int // deferred calls registered when this exit/panic edge was taken
 }
 
 func newState() *State {
@@ -23,7 +24,7 @@ func newState() *State {
 
 func (s *State) clone() *State {
 	n := &State{pc: s.pc[:len(s.pc):len(s.pc)], vars: make(map[*types.Var]Term, len(s.vars)),
-		heap: make(map[string]string, len(s.heap)), ghost: make(map[string]Term, len(s.ghost)), site: s.site}
+		heap: make(map[string]string, len(s.heap)), ghost: make(map[string]Term, len(s.ghost)), site: s.site, ndefer: s.ndefer}
 	for k, v := range s.vars {
 		n.vars[k] = v
 	}
@@ -65,55 +66,56 @@ func (fl *Flow) absorb(o *Flow) {
 }
 
 type Obligation struct {
-	ID      string
-	Func    string
-	Kind    string // ensures pre inv-entry inv-preserved nopanic variant frame lemma cover
-	Props   []string
-	Clause  string
-	PC      []string
-	Goal    string
-	Site    string
-	Decls   []string
-	Bounded int
-	Res     *SolverResult
-	Query   string
-	Expect  string // "unsat" normally; "sat" for cover/vacuity queries
+	ID       string
+	Func     string
+	Kind     string // ensures pre inv-entry inv-preserved nopanic variant frame lemma cover
+	Props    []string
+	Clause   string
+	PC       []string
+	Goal     string
+	Site     string
+	Decls    []string
+	Bounded  int
+	Res      *SolverResult
+	Query    string
+	Expect   string // "unsat" normally; "sat" for cover/vacuity queries
 	FuncHash string
 	Axioms   []string // on-demand axioms to include
 }
 
 type FuncCtx struct {
-	w         *World
-	info      *FuncInfo
-	con       *Contract
-	key       string
-	bv        bool
-	decls     []string
-	declSet   map[string]bool
-	nfresh    int
-	obls      []*Obligation
-	usedSpec  map[string]bool
-	pend      []*State
-	track     bool // track panic edges
-	names0    map[string]Term
-	initSt    *State
-	recvVar   *types.Var
-	params    []*types.Var
-	results   []*types.Var
-	loopOrd   map[ast.Node]int
-	retOrd    map[ast.Node]int
-	siteCount map[string]int
-	deferred  []ast.Expr // deferred calls in registration order
-	recoverT  string
+	w            *World
+	info         *FuncInfo
+	con          *Contract
+	key          string
+	bv           bool
+	decls        []string
+	declSet      map[string]bool
+	nfresh       int
+	obls         []*Obligation
+	usedSpec     map[string]bool
+	pend         []*State
+	track        bool // track panic edges
+	names0       map[string]Term
+	initSt       *State
+	recvVar      *types.Var
+	params       []*types.Var
+	results      []*types.Var
+	loopOrd      map[ast.Node]int
+	retOrd       map[ast.Node]int
+	siteCount    map[string]int
+	deferred     []ast.Expr // deferred calls in registration order
+	recoverT     string
 	localsByName map[string][]*types.Var
-	usedCons  map[string]bool
-	assumed   map[string]bool
-	useAlloc  bool
-	curProp   string
-	bounded   int
-	labelOf   map[ast.Stmt]string
-	noHeap    bool
-	curSpec   string
+	usedCons     map[string]bool
+	assumed      map[string]bool
+	useAlloc     bool
+	curProp      string
+	bounded      int
+	labelOf      map[ast.Stmt]string
+	noHeap       bool
+	inlineDepth  int
+	curSpec      string
 }
 
 func (f *FuncCtx) fresh(hint string, sort Sort) string {
@@ -158,7 +160,7 @@ func (f *FuncCtx) ghostTerm(st *State, name string) Term {
 	if !ok {
 		cfail("undeclared ghost variable %s", name)
 	}
-	s, gt := f.w.specSort("", g.Type)
+	s, gt := f.w.specSort(g.PkgName, g.Type)
 	init := "g_" + strings.TrimPrefix(name, "$") + "!0"
 	f.declare(init, s)
 	return Term{S: init, Sort: s, GoT: gt}
@@ -349,6 +351,7 @@ func (f *FuncCtx) panicIf(st *State, cond, site string) {
 		p := st.clone()
 		p.assume(cond)
 		p.site = site
+		p.ndefer = len(f.deferred)
 		f.pend = append(f.pend, p)
 	}
 	st.assume("(not " + cond + ")")
@@ -358,6 +361,7 @@ func (f *FuncCtx) panicFork(st *State, site string) {
 	if f.track {
 		p := st.clone()
 		p.site = site
+		p.ndefer = len(f.deferred)
 		f.pend = append(f.pend, p)
 	}
 }
